@@ -241,3 +241,26 @@ MUTANTS["C19"] = [
     M("lhs-not-printed", "codegen/python.py", "            lhs = super()._print(expr.args[0][0].lhs)\n            result.append(f\"{super()._print(lhs)} = \")", "            lhs = expr.args[0][0].lhs\n            result.append(f\"{lhs} = \")", "R19.e"),
     M("partial-guard", "ode.py", "T = TypeVar(\"T\")\n", "T = TypeVar(\"T\")\nRESERVED = {\"dt\", \"states\", \"parameters\", \"values\", \"numpy\"}\n", "R19.a"),
 ]
+
+
+# ---- liveness of the rules added by round 4 ---------------------------------------------------------------------------
+MUTANTS["C04"] += [
+    M("state-order-shortcut", "ode.py", "return tuple(s for s in self.sorted_assignments() if isinstance(s, atoms.StateDerivative))", "if not self.intermediates:\n            return self.state_derivatives\n        return tuple(s for s in self.sorted_assignments() if isinstance(s, atoms.StateDerivative))", "R04.a2"),
+]
+MUTANTS["C05"] += [
+    M("sorted-states-by-name", "ode.py", "return tuple(s.state for s in self.sorted_state_derivatives())", "return self.states if len(self.intermediates) == 0 else tuple(s.state for s in self.sorted_state_derivatives())", "R05.e"),
+]
+MUTANTS["C03"] += [
+    M("jax-float-rounded", "codegen/python.py", "return self._print(str(float(flt)))", "return self._print(str(round(float(flt), 14)))", "R03.b"),
+    M("jax-header-32bit", "codegen/jax.py", '\'jax.config.update("jax_enable_x64", True)\'', '\'jax.config.update("jax_enable_x64", False)\'', "R03.b"),
+]
+MUTANTS["C09"] += [
+    M("fold-singularities-one-by-one", "atoms.py", "    new_expr = sp.piecewise_fold(sum(exprs))", "    new_expr = exprs[0]\n    for other in exprs[1:]:\n        new_expr = sp.piecewise_fold(new_expr + other)", "R09.a"),
+]
+MUTANTS["C11"] += [
+    M("comment-first-line-only", "codegen/ode.py", 'text = "# " + "\\n# ".join(text.strip().split("\\n"))', 'text = "# " + text.strip()', "R11.b"),
+]
+MUTANTS["C17"] += [
+    M("comment-stops-at-cr", "ode.lark", "COMMENT: /#[^\\n]*/", "COMMENT: /#[^\\r\\n]*/", "R17.b"),
+    M("comment-stops-at-semicolon", "ode.lark", "COMMENT: /#[^\\n]*/", "COMMENT: /#[^;\\n]*/", "R17.b"),
+]
